@@ -90,7 +90,7 @@ def step(parent: str, served_head: str, nin: int, twin: bool = False, real: bool
         snap = snapshot_state(pre)
         entries_before = {n: list(getattr(pre, n).items()) for n in ("block_by_hash", "unspent_transaction_outs_by_hash", "block_by_height_by_hash")}
         parent_map_items = list(pre.unspent_transaction_outs_by_hash[par.hash()].items())
-        cb = W.env.coinbase(par.height + 1, [dt.Output(9, W.keys[3])], tok(TX, 20))
+        cb = W.env.coinbase(par.height + 1, [dt.Output(9, W.keys[3]), dt.Output(o0, W.keys[1])], tok(TX, 20))     # two reward outputs
         ins = [(0, 0, 0), (1, 1, 0)][:nin]          # (T10,0) and (T10,1): unspent at R, P and F alike
         outs = [(o0, 1), (o1, 2)][:nout]
         txs = [cb]
@@ -296,10 +296,16 @@ def histories(parents_tail: Tuple[int, ...], mask: int, twin: bool = False, real
             if pos[parents[i]] > pos[i]:
                 return True
         res = []
-        for order in (order1, order2):
+        early: List[Tuple[int, Any, List[Tuple[bytes, int]], int]] = []
+        for oi, order in enumerate((order1, order2)):
             cs = env.empty_state()
             for i in order:
                 cs = cs.add_block_no_validation(blocks[i])
+                if oi == 0:
+                    # the balance view is asked for BETWEEN arrivals (as wallets and explorers do) and remembered
+                    view = cs.public_key_balances_by_hash[blocks[i].hash()]
+                    pkb = view[key]
+                    early.append((i, pkb, [(r.hash, r.index) for r in pkb.output_references], pkb.value))
             res.append(cs)
         if twin:
             return swap_a == swap_b
@@ -322,6 +328,15 @@ def histories(parents_tail: Tuple[int, ...], mask: int, twin: bool = False, real
             ba = a.public_key_balances_by_hash[hsh]
             bb = b.public_key_balances_by_hash[hsh]
             if ba[key].value != bb[key].value or ba[key].value != sum(v for (_, v) in ia):
+                return False
+            # references listed = exactly the unspent outputs (all pay the one key here)
+            for view in (ba, bb):
+                refs = sorted((r.hash, r.index) for r in view[key].output_references)
+                if refs != sorted(k for (k, _) in ia):
+                    return False
+        # balance records handed out earlier were not changed by later arrivals
+        for (i, pkb, refs0, val0) in early:
+            if [(r.hash, r.index) for r in pkb.output_references] != refs0 or pkb.value != val0:
                 return False
         return True
 
